@@ -136,7 +136,6 @@ EXPORT errno_t _mbstowcs_s_chk(size_t *restrict retvalp, wchar_t *restrict dest,
 
     CHK_SRC_NULL("mbstowcs_s", retvalp)
     *retvalp = 0;
-    CHK_SRCW_NULL_CLEAR("mbstowcs_s", src)
     if (dest) {
         /* string literals also have the ending \0 */
         size_t destsz = dmax * sizeof(wchar_t);
@@ -173,6 +172,16 @@ EXPORT errno_t _mbstowcs_s_chk(size_t *restrict retvalp, wchar_t *restrict dest,
             }
 #endif
         }
+    }
+    /* after dest and dmax are known to be usable: dest may be null */
+    if (unlikely(src == NULL)) {
+        if (dest) {
+            handle_werror(dest, dmax, "mbstowcs_s: src is null", ESNULLP);
+        } else {
+            invoke_safe_str_constraint_handler("mbstowcs_s: src is null", NULL,
+                                               ESNULLP);
+        }
+        return RCNEGATE(ESNULLP);
     }
     if (unlikely((char *)dest == src)) {
         return RCNEGATE(ESOVRLP);
